@@ -2,7 +2,7 @@
    every argument form returns the payload columns of the relational left join. *)
 From Coq Require Import ZArith List Lia Bool ZifyBool.
 From EV Require Import Res Arr Join JoinSpec JoinBase JoinIface JoinRows JoinDriver JoinMain
-  MapStream MapStreamSpec MapHelpers MapStreamFixed SessionMerge SessionMergeSpec SessionMergeBase SessionMergeLeft.
+  MapStream MapStreamSpec MapStreamBase MapHelpers MapStreamFixed MapStreamGen SessionMerge SessionMergeSpec SessionMergeBase SessionMergeLeft.
 Import ListNotations.
 Open Scope Z_scope.
 
@@ -109,10 +109,13 @@ Qed.
 (* ---- the streamed form (repaired code): field keys, payloads, sinks and map ---- *)
 Lemma stream_col cs s : 1 <= cs -> In s srcs ->
   ordered_map_valid_stream 0 0 (S (length jm)) Fixed s jm inv cs = Ok (left_payload 0 L R s).
-Proof.
-  intros Hcs Hs. rewrite (@map_stream_correct_gen Z 0 0 s inv jm cs (S (length jm)) Hcs).
+Proof using HL HLu HR Hbig Hlen.
+  (* since fix-F-C02f the stream needs only an in-range map (map_stream_correct_any); before, the map had to be
+     non-decreasing, which is where `sorted L` and `ssorted R` were used (join_map_valid).  They stay in the
+     statement (`Proof using`) so that the lemmas built on this one keep their signatures. *)
+  intros Hcs Hs. rewrite (@map_stream_correct_any Z 0 0 s inv jm cs (S (length jm)) Hcs).
   - unfold jm. rewrite (map_spec_left_payload 0 s inv L R Hninv). reflexivity.
-  - unfold jm. apply join_map_valid; [exact HL|exact HR|]. rewrite (Hlen s Hs). lia.
+  - unfold jm. apply join_map_in_range. rewrite (Hlen s Hs). lia.
   - lia.
 Qed.
 
